@@ -267,6 +267,18 @@ class RTMAJSONEncoder(json.JSONEncoder):
         return super().default(o)
 
 
+def _all_fields(obj: MessageBase) -> List[Any]:
+    """Fields of the object's class including those inherited from base classes
+
+    ctypes lists only the fields a subclass adds in its own ``_fields_``
+    (e.g. TimeCodeMessageHeader extends MessageHeader).
+    """
+    fields: List[Any] = []
+    for klass in reversed(type(obj).__mro__):
+        fields.extend(klass.__dict__.get("_fields_", ()))
+    return fields
+
+
 def _from_dict(obj: MessageBase, data: Dict[str, Any]):
     """Helper function to set message fields from dictionary values
 
@@ -274,7 +286,7 @@ def _from_dict(obj: MessageBase, data: Dict[str, Any]):
         obj (MessageBase): Message object
         data (Dict[str, Any]): Message data dictionary
     """
-    for _name, ftype, *_ in obj._fields_:
+    for _name, ftype, *_ in _all_fields(obj):
         name = _name[1:] if _name[0] == "_" else _name
         if issubclass(ftype, MessageBase):
             _from_dict(getattr(obj, name), data[name])
@@ -314,7 +326,7 @@ def _to_dict(obj: MessageBase) -> Dict[str, Any]:
         Dict[str, Any]: Dictionary
     """
     data: Dict[str, Any] = {}
-    for _name, ftype, *_ in obj._fields_:
+    for _name, ftype, *_ in _all_fields(obj):
         name = _name[1:] if _name[0] == "_" else _name
         if issubclass(ftype, MessageBase):
             data[name] = _to_dict(getattr(obj, name))
